@@ -260,6 +260,7 @@ def run(ctx):
                  "routing_problem.py, the three formulation files and applications/mirp.py, class-body assignments, imports; the flow "
                  "analysis, the classification of writes against Store.v, the discipline check and the getter semantics are Coq "
                  "definitions in theories/PyAlias.v)")
+    from props import pysem; pysem.run(ctx, pysem.GROUPS_FOR.get(ctx.pid, ()))
     rng = ctx.rng
     ctx.assumptions += [
         "copy.deepcopy, CPython object identity and numpy are library/runtime behaviour: the frame theorem's disjointness hypothesis is checked on the real objects by id()-reachability, not proved",
